@@ -698,6 +698,12 @@ static int32 tls13WriteServerHello(ssl_t *ssl, sslBuf_t *out,
         return rc;
     }
     extData = psDynBufDetachPsSize(&extBuf, &extDataLen);
+    if (extData == NULL)
+    {
+        psDynBufUninit(&shBuf);
+        ssl->err = SSL_ALERT_INTERNAL_ERROR;
+        return PS_MEM_FAIL;
+    }
 
     /* Extension extensions<6..2^16-1> */
     psDynBufAppendTlsVector(&shBuf,
@@ -711,6 +717,11 @@ static int32 tls13WriteServerHello(ssl_t *ssl, sslBuf_t *out,
 
     psDynBufUninit(&extBuf);
     psDynBufUninit(&shBuf);
+    if (shData == NULL)
+    {
+        ssl->err = SSL_ALERT_INTERNAL_ERROR;
+        return PS_MEM_FAIL;
+    }
 
     /* Wrap into Handshake and TLSPlaintext. */
     rc = makeHsRecord(ssl,
@@ -815,6 +826,11 @@ static int32_t tls13WriteEncryptedExtensions(ssl_t *ssl, sslBuf_t *out)
     }
 
     extensionData = psDynBufDetachPsSize(&eeBuf, &extensionDataLen);
+    if (extensionData == NULL)
+    {
+        ssl->err = SSL_ALERT_INTERNAL_ERROR;
+        return PS_MEM_FAIL;
+    }
     psDynBufInit(ssl->hsPool, &eeBuf, ENCRYPTED_EXTENSIONS_SIZE_EST);
     /* Extension extensions<0..2^16-1>; */
     psDynBufAppendTlsVector(&eeBuf,
@@ -823,6 +839,11 @@ static int32_t tls13WriteEncryptedExtensions(ssl_t *ssl, sslBuf_t *out)
             extensionDataLen);
     psFree(extensionData, ssl->hsPool);
     eeData = psDynBufDetachPsSize(&eeBuf, &eeLen);
+    if (eeData == NULL)
+    {
+        ssl->err = SSL_ALERT_INTERNAL_ERROR;
+        return PS_MEM_FAIL;
+    }
 
     /* Wrap into Handshake, TLSPlaintext, TLSInnerPlaintext and
        TLSCiphertext. But don't encrypt yet. */
@@ -1469,6 +1490,7 @@ int32_t tls13WriteNewSessionTicket(ssl_t *ssl, sslBuf_t *out)
             &ticketLen);
     if (rc < 0)
     {
+        psDynBufUninit(&nstBuf);
         goto out_internal_error;
     }
 
@@ -2491,6 +2513,8 @@ int32 tls13WriteClientHello(ssl_t *ssl, sslBuf_t *out,
             if (ssl->tls13ClientCipherSuites == NULL)
             {
                 psTraceErrr("Out of mem in tls13WriteClientHello\n");
+                psDynBufUninit(&ciphersBuf);
+                psDynBufUninit(&chBuf);
                 goto out_internal_error;
             }
             for (i = 0; i < cipherSpecsLen; i++)
@@ -2510,6 +2534,11 @@ int32 tls13WriteClientHello(ssl_t *ssl, sslBuf_t *out,
                 ssl->tls13ClientCipherSuitesLen,
                 PS_FALSE);
         data = psDynBufDetachPsSize(&ciphersBuf, &dataLen);
+        if (data == NULL)
+        {
+            psDynBufUninit(&chBuf);
+            goto out_internal_error;
+        }
         /* CipherSuite cipher_suites<2..2^16-2>; */
         psDynBufAppendTlsVector(&chBuf,
                 2, (1 << 16) - 2,
@@ -2547,6 +2576,11 @@ int32 tls13WriteClientHello(ssl_t *ssl, sslBuf_t *out,
         return rc;
     }
     data = psDynBufDetachPsSize(&extBuf, &dataLen);
+    if (data == NULL)
+    {
+        psDynBufUninit(&chBuf);
+        goto out_internal_error;
+    }
     /* Extension extensions<6..2^16-1> */
     psDynBufAppendTlsVector(&chBuf,
             6, (1 << 16) - 1,
@@ -2556,6 +2590,10 @@ int32 tls13WriteClientHello(ssl_t *ssl, sslBuf_t *out,
 
     /* Now have the full ClientHello in chBuf. */
     data = psDynBufDetachPsSize(&chBuf, &dataLen);
+    if (data == NULL)
+    {
+        goto out_internal_error;
+    }
 
     messageSize = ssl->recordHeadLen + ssl->hshakeHeadLen + dataLen;
     if (messageSize > SSL_MAX_BUF_SIZE)
